@@ -1104,6 +1104,10 @@ func (e *Exec) writeBadFile(op *Op, path string) {
 		os.WriteFile(path, []byte(`[1,2,3]`), 0o644)
 	case "badid":
 		os.WriteFile(path, []byte(`[{"_id":"7d1d1b0c-5b3f-4f0e-9b55-2f1c5f6b8a11","a":1},{"_id":"not-a-uuid","a":2}]`), 0o644)
+	case "nullelem":
+		os.WriteFile(path, []byte(`[{"_id":"7d1d1b0c-5b3f-4f0e-9b55-2f1c5f6b8a11","a":1},null]`), 0o644)
+	case "nonobject":
+		os.WriteFile(path, []byte(`[{"_id":"7d1d1b0c-5b3f-4f0e-9b55-2f1c5f6b8a11","a":1},[1,2]]`), 0o644)
 	case "dupid":
 		os.WriteFile(path, []byte(`[{"_id":"7d1d1b0c-5b3f-4f0e-9b55-2f1c5f6b8a11","a":1},{"_id":"7d1d1b0c-5b3f-4f0e-9b55-2f1c5f6b8a11","a":2}]`), 0o644)
 	}
